@@ -167,7 +167,10 @@ class Sphere(Shape3D):
         q = np.atleast_2d(q)
         form_factor = np.empty(q.shape[0], dtype=np.complex128)
         q_sqs = np.sum(q * q, axis=-1)
-        zero_q = np.isclose(q_sqs, 0)
+        # "Zero" relative to the size of the sphere (|q| R < 1e-4): to that order the
+        # amplitude is the volume (relative error below 1e-9), and just above that the
+        # difference below loses about 1e-16 / (|q| R)^2 to cancellation.
+        zero_q = q_sqs * self.radius**2 < 1e-8
         form_factor[zero_q] = self.volume
         # Two notes are in order for the formula below:
         #   - np.sinc(x) gives sin(pi*x)/(pi*x)
